@@ -556,6 +556,23 @@ func initializeAliasToIndexMap() error {
 	}
 
 	for _, dir := range dirs {
+		if !dir.IsDir() {
+			// alias files of the default org (orgid 0) live directly in VTableAliasesDir
+			fname := dir.Name()
+			if strings.HasSuffix(fname, ".json") {
+				indexName := strings.TrimSuffix(fname, ".json")
+				aliasNames, err := GetAliases(indexName, 0)
+				if err != nil {
+					log.Errorf("initializeAliasToIndexMap: For indexName=%v, Failed to getAllAliasInIndexFile fname=%v, err=%v", indexName, fname, err)
+					return err
+				}
+
+				for aliasName := range aliasNames {
+					putAliasToIndexInMem(aliasName, indexName, 0)
+				}
+			}
+			continue
+		}
 		if dir.IsDir() {
 			orgid := dir.Name()
 			orgIdNumber, _ := strconv.ParseInt(orgid, 10, 64)
